@@ -10,7 +10,7 @@ driver ops for C15 (text travels hex-encoded, one code point < 256 per byte; `-`
 * `c15.save d|f <hexheader> <f64hex x y variance>…` → `<hextext>`  (the file `save_xye` writes; `f` = float32
   data: square root in single precision; the numbers are the exact values of the int / float32 / float64 inputs)
 * `c15.load p|s <hextext>`            → `ok <n> <x…> <y…> <variance…>` | `err:*`
-* `c15.roundtrip p|s <hexheader> <f64hex x y variance>…` → as `c15.load` on the saved text
+* `c15.roundtrip p|s d|f <hexheader> <f64hex x y variance>…` → as `c15.load` on the saved text
 * `c15.repls` → `ok|untranslated <hexold>><hexnew>…` (header rewriting statements found by the translator)
 * `c15.check <hasVar 0|1> <ndim> <hasMasks 0|1> <hexdim> <hexcoordarg|none> (<hexname> <ndim> <edges 0|1> <numeric 0|1>)…`
                                        → `ok <hexname>` | `err:*`
@@ -74,9 +74,11 @@ def handle : List String → Option String
   | ["c15.load", m, t] => do
       let m ← mode? m; let t ← text? t
       some (loadOut (loadText parseF (fun x => x * x) m t))
-  | "c15.roundtrip" :: m :: h :: xs => do
+  | "c15.roundtrip" :: m :: prec :: h :: xs => do
+      let single ← (match prec with | "f" => some true | "d" => some false | _ => none)
       let m ← mode? m; let h ← text? h; let fs ← xs.mapM f64?; let rows ← triples fs
-      some (loadOut (loadText parseF (fun x => x * x) m (saveXye Gen.Xye.headerReplacements fmtF Float.sqrt h rows)))
+      some (loadOut (loadText parseF (fun x => x * x) m
+        (saveXye Gen.Xye.headerReplacements fmtF (sqrtData single) h rows)))
   | "c15.check" :: hv :: nd :: hm :: dim :: arg :: cs => do
       let nd ← nd.toNat?; let dim ← text? dim; let arg ← optText? arg; let cs ← coords? cs
       match saveCheck (⟨hv = "1", nd, hm = "1", dim, cs⟩ : Desc (List Char)) arg with
